@@ -72,6 +72,24 @@ Proof.
   now apply no_scripts_no_requirement.
 Qed.
 
+(* the script gate of every clause depends only on whether the redeemer set is
+   empty - not on how many redeemers there are nor on their purposes (spend,
+   mint, ..., guarding, or any tag added later) *)
+Theorem C32_gate_is_nonempty : forall era rs k tags tags' ins fee ret pct mx, In era eras4 -> rules_of era = Some rs ->
+  (tags = [] <-> tags' = []) ->
+  run_kind rs k (mk_tx (nred_of_tags tags) ins fee ret pct mx) = run_kind rs k (mk_tx (nred_of_tags tags') ins fee ret pct mx).
+Proof.
+  intros era rs k tags tags' ins fee ret pct mx He H E. rewrite !(run_kind_fn era rs _ _ He H).
+  apply rule_fn_gate. rewrite !nred_of_tags_zero. destruct tags, tags'; try reflexivity.
+  - destruct E as [E _]. specialize (E eq_refl). discriminate.
+  - destruct E as [_ E]. specialize (E eq_refl). discriminate.
+Qed.
+Print Assumptions C32_gate_is_nonempty.
+
+Theorem C32_any_redeemer_runs_scripts : forall tags, tags <> [] -> forall ins fee ret pct mx,
+  runs_scripts (mk_tx (nred_of_tags tags) ins fee ret pct mx).
+Proof. intros tags Hne ins fee ret pct mx. unfold runs_scripts, nred_of_tags. cbn [t_nred]. destruct tags; [contradiction|]. cbn [length]. lia. Qed.
+
 (* the property as stated: whatever the other rules of the list do, a script
    transaction that VerifyTransaction accepts satisfies all four clauses *)
 Theorem C32_accepted_only_if : forall other era rs t, In era eras4 -> rules_of era = Some rs ->
